@@ -461,6 +461,49 @@ pub fn apply_seq(ev: &Value) -> Vec<Value> {
     let mut outs = Vec::new();
     let ids0: BTreeSet<u64> = cur["vars"].as_array().unwrap().iter().map(|v| v["id"].as_u64().unwrap()).collect();
     for (k, op) in inp["ops"].as_array().unwrap().iter().enumerate() {
+        if op["op"] == "encode_all_integers" {
+            // log-encode + substitute every integer variable that is still free (the slack variables created on the way included)
+            let deps: BTreeSet<u64> = cur["deps"].as_array().unwrap().iter().map(|d| d[0].as_u64().unwrap()).collect();
+            let todo: Vec<u64> = cur["vars"].as_array().unwrap().iter()
+                .filter(|v| v["kind"] == "integer" && v["fixed"].as_array().unwrap().is_empty() && !deps.contains(&v["id"].as_u64().unwrap()))
+                .map(|v| v["id"].as_u64().unwrap()).collect();
+            for vid in todo {
+                let e1 = json!({"ev":"log_encode","case":case,"step":k + 1,"src":ev["src"],"in":{"inst":cur,"vid":vid}});
+                let r1 = apply_one(&e1);
+                let o1 = r1[0]["out"].clone();
+                outs.extend(r1);
+                if o1["tag"] == "ok" {
+                    let e2 = json!({"ev":"inst_subst","case":case,"step":k + 1,"src":ev["src"],"in":{"inst":o1["post"],"repl":[[vid, o1["enc"]]]}});
+                    let r2 = apply_one(&e2);
+                    if r2[0]["out"]["tag"] == "ok" {
+                        cur = r2[0]["out"]["post"].clone();
+                    }
+                    outs.extend(r2);
+                }
+            }
+            continue;
+        }
+        if op["op"] == "penalty_chain" {
+            // (uniform_)penalty_method, then with_parameters with the given weights (cyclically, in the order the
+            // parametric instance lists its parameters); the history continues on the unconstrained instance
+            let name = if op["uniform"] == true { "uniform_penalty" } else { "penalty" };
+            let e1 = json!({"ev":name,"case":case,"step":k + 1,"src":ev["src"],"in":{"inst":cur}});
+            let r1 = apply_one(&e1);
+            let o1 = r1[0]["out"].clone();
+            outs.extend(r1);
+            if o1["tag"] == "ok" {
+                let ws = op["weights"].as_array().unwrap();
+                let pv: Vec<Value> = o1["pinst"]["parameters"].as_array().unwrap().iter().enumerate()
+                    .map(|(i, p)| json!([p["id"], ws[i % ws.len()]])).collect();
+                let e2 = json!({"ev":"with_parameters","case":case,"step":k + 1,"src":ev["src"],"in":{"pinst":o1["pinst"],"pv":pv}});
+                let r2 = apply_one(&e2);
+                if r2[0]["out"]["tag"] == "ok" {
+                    cur = r2[0]["out"]["post"].clone();
+                }
+                outs.extend(r2);
+            }
+            continue;
+        }
         if op["op"] == "encode_subst" {
             // log-encode a variable, then substitute the encoding the call returned (the to-QUBO pipeline): two events
             let e1 = json!({"ev":"log_encode","case":case,"step":k + 1,"src":ev["src"],"in":{"inst":cur,"vid":op["vid"]}});
@@ -487,7 +530,9 @@ pub fn apply_seq(ev: &Value) -> Vec<Value> {
             let mut j = 0u32;
             for v in cur["vars"].as_array().unwrap() {
                 let id = v["id"].as_u64().unwrap();
-                if ids0.contains(&id) || !v["fixed"].as_array().unwrap().is_empty() {
+                let given = st.iter().any(|e| e[0].as_u64() == Some(id));
+                let dep = cur["deps"].as_array().unwrap().iter().any(|d| d[0].as_u64() == Some(id));
+                if given || dep || !v["fixed"].as_array().unwrap().is_empty() || (ids0.contains(&id) && op.get("fill_all").is_none()) {
                     continue;
                 }
                 let (lo, hi) = auto_box(v);
@@ -498,6 +543,7 @@ pub fn apply_seq(ev: &Value) -> Vec<Value> {
             }
             one["in"]["st"] = Value::Array(st);
             one["in"].as_object_mut().unwrap().remove("fill");
+            one["in"].as_object_mut().unwrap().remove("fill_all");
         }
         if op.get("points").and_then(|p| p.as_str()) == Some("auto") {
             match auto_points(&cur) {
